@@ -21,6 +21,7 @@ class World:
         self.classes = {}     # name -> ClassDef
         self.enums = {}       # name -> EnumDef
         self.enumerators = {} # 'Enum::item' and 'item' -> int
+        self._ambiguous_enumerators = set()
         self.filevars = {}    # path -> {name: VarDef}
         self.known_types = set()
         self.errors = []
@@ -60,9 +61,17 @@ class World:
                 self.classes[name] = cd
             for name, ed in u.enums.items():
                 self.enums[name] = ed
+                ecls = getattr(ed, 'cls', None)
                 for it, val in ed.items:
                     self.enumerators[name + '::' + it] = val
+                    if ecls:
+                        self.enumerators[ecls + '::' + it] = val
+                        self.enumerators[ecls + '::' + name + '::' + it] = val
                     if not ed.scoped:
+                        if it in self.enumerators and self.enumerators[it] != val and it not in self._ambiguous_enumerators:
+                            # the same unqualified enumerator name in two enums (e.g. Config_options::GM2Calc = 4, Gm2_cmd_line_options::GM2Calc = 1):
+                            # an unqualified use cannot be resolved by name alone
+                            self._ambiguous_enumerators.add(it)
                         self.enumerators[it] = val
             for fd in u.funcs:
                 key = strip_ns(fd.qname)
